@@ -6,6 +6,7 @@ PROP = "C11"
 LEVEL = "exploration"
 SHARDS = {"quick": 8, "thorough": 16}
 TIMEOUT = {"quick": 1200, "thorough": 7200}
+THOROUGH_MULT = 3   # thorough budgets below are multiplied by this (sized for roughly five minutes on 16 cores)
 REQUIRED = {"A.encode": 1500, "A.decode_back": 500, "B.reject_constructed": 300, "C.syndromes": 2201,
             "C.linearity": 200, "C.weight_le4": 4, "D.substitution": 10000, "D.differential": 3000}
 ANCHORS = ['bech32:encode', 'bech32:decode', 'bech32:bech32_polymod', 'bech32:convertbits', 'bech32:bech32_decode', 'helper:bech32_decode_address']
